@@ -452,11 +452,39 @@ func newCluster(seed uint64, useTan bool, execShards uint64, nShards int, saveDe
 	return newClusterN(seed, useTan, execShards, nShards, 3, saveDelay)
 }
 
+// the cluster of this (child) process, for the watchdog
+var watchCluster *cluster
+
+// watchdog: a cluster that wedges (a proposal that never returns, a Close that never ends) must
+// not hang the case generation: after limit the events recorded so far are written out as the
+// result of the run (each host trace ends with a cut marker, so that the order checks accept
+// the unfinished batch) and the process exits.
+func startWatchdog(limit time.Duration, dump func(traces [][]event)) {
+	time.AfterFunc(limit, func() {
+		c := watchCluster
+		if c == nil {
+			os.Exit(3)
+		}
+		var traces [][]event
+		for _, h := range c.hosts {
+			h.rec.mu.Lock()
+			evs := append([]event(nil), h.rec.events...)
+			h.rec.crashed = true
+			h.rec.mu.Unlock()
+			traces = append(traces, append(evs, event{kind: 'X'}))
+		}
+		fmt.Fprintf(os.Stderr, "c04: watchdog: the run did not finish within %v, the events recorded so far are used\n", limit)
+		dump(traces)
+		os.Exit(0)
+	})
+}
+
 func newClusterN(seed uint64, useTan bool, execShards uint64, nShards int, nHosts int, saveDelay time.Duration) *cluster {
 	quietLogs()
 	c := &cluster{useTan: useTan, execShards: execShards, rnd: vh.NewRand(seed), completed: map[uint64][]uint64{},
 		members: map[uint64]dragonboat.Target{}, notes: map[string]int{}}
 	c.tag = fmt.Sprintf("c04-%d", atomic.AddUint64(&clusterSeq, 1))
+	watchCluster = c
 	for s := 1; s <= nShards; s++ {
 		c.shards = append(c.shards, uint64(s))
 	}
@@ -705,7 +733,7 @@ func (c *cluster) crashRestart(i int, within int, restartNow bool) error {
 	if c.rnd.Chance(1, 2) {
 		// between two file system operations of some SaveRaftState of this host
 		r.fsOps = 0
-		r.fsCrashAt = 1 + c.rnd.Intn(1+within/3)
+		r.fsCrashAt = 1 + c.rnd.Intn(6)
 		c.mu.Lock()
 		c.notes["crash_points_inside_save_armed"]++
 		c.mu.Unlock()
@@ -722,7 +750,7 @@ func (c *cluster) crashRestart(i int, within int, restartNow bool) error {
 	select {
 	case <-r.crashedC:
 		c.note("crashes")
-	case <-time.After(3 * time.Second):
+	case <-time.After(1500 * time.Millisecond):
 		// boundary not reached (idle host): crash at the current boundary instead
 		r.mu.Lock()
 		if !r.crashed {
